@@ -1,5 +1,6 @@
 import XalanModel.C18.RoundTripProofs
 import XalanModel.C18.GrammarProofs
+import XalanModel.C18.DblProofs
 /-! Helper lemmas for C18: `roundRat` depends on the value only; zero stripping preserves the value `atof` reads;
 round trip of the precision-loop path. -/
 set_option linter.unusedSimpArgs false
@@ -152,38 +153,26 @@ theorem atofModel_postProcess (neg : Bool) (ip fp : List Nat) (hip : ∀ c ∈ i
     rw [e2, Nat.pow_add]
     exact (roundRat_scale neg _ _ (10 ^ zs.length) (Nat.pow_pos (by decide))).symm
 
-/-- **round trip through the precision loop**: when the loop is left because the text read back equal
-(`atof(buf) == x`), the final string — after zero stripping — still reads back as `x`:
-its specified value `toDoubleSpec s` is IEEE-equal to `x`, and `toDouble` returns exactly that on the
-`atof` path (decimal point present, or at least `threshold` characters). -/
+/-- **round trip through the printf path**: when the text in the buffer at the start of the zero stripping
+(result of the precision loop, or of `formatSmallNumber`) reads back equal (`atof(buf) == x`), the final
+string — after zero stripping — still reads back as `x`: its specified value `toDoubleSpec s` is
+IEEE-equal to `x`, and `toDouble` returns exactly that on the `atof` path (decimal point present, or at
+least `threshold` characters). -/
 theorem roundtrip_printf (cfg : NumCfg) (keep : Bool) (threshold : Nat) (neg : Bool) (m : Nat) (e : Int)
     (hm : m ≠ 0) (hP : ∀ p ∈ cfg.precisions, 1 ≤ p)
     (hnint : (Dbl.ofInt (castInt64 neg m e)).ieeeEq (.fin neg m e) = false)
-    (buf : List Nat) (hl : printLoop cfg.buffer neg m e cfg.precisions = some buf)
+    (buf : List Nat) (hl : finalBuffer cfg neg m e = some buf)
     (hexit : (atofModel buf).ieeeEq (.fin neg m e) = true) :
     ∃ s, numberToString cfg (.fin neg m e) = .ok s ∧ matchesNumber s = true ∧
       (toDoubleSpec s).ieeeEq (.fin neg m e) = true ∧
       (((doValidate2 s).2 = true ∨ threshold ≤ s.length) → toDoubleK keep threshold s = toDoubleSpec s) := by
-  obtain ⟨p, hp, rfl, _⟩ := printLoop_some _ _ _ _ _ _ hl
-  have hp0 : p ≠ 0 := by have := hP p hp; omega
-  have hshape := printfF_eq p neg m e
-  simp only [hp0, if_false] at hshape
-  generalize hipd : decDigits (scaledQ p m e / 10 ^ p) = ip at hshape
-  generalize hfpd : List.replicate (p - (decDigits (scaledQ p m e % 10 ^ p)).length) c0 ++
-      decDigits (scaledQ p m e % 10 ^ p) = fp at hshape
-  have hip : ∀ c ∈ ip, isDigit c = true := by rw [← hipd]; exact decDigits_all _
-  have hne : ip ≠ [] := by rw [← hipd]; exact decDigits_ne_nil _
-  have hfp : ∀ c ∈ fp, isDigit c = true := by
-    rw [← hfpd]; intro c hc
-    rcases List.mem_append.mp hc with h | h
-    · have := List.eq_of_mem_replicate h; subst this; decide
-    · exact decDigits_all _ c h
-  rw [hshape] at hexit hl
+  obtain ⟨⟨ip, fp, rfl, hne, hip, _, _, hfp⟩, _⟩ := finalBuffer_some cfg neg m e buf hP hl
   obtain ⟨s, hs⟩ : ∃ s, postProcess (signOf neg ++ ip ++ cDot :: fp) = some s := by
     rcases postProcess_cases (signOf neg) ip fp hfp with ⟨_, h⟩ | ⟨_, _, _, _, _, _, h⟩ <;> exact ⟨_, h⟩
   obtain ⟨hval, hform⟩ := atofModel_postProcess neg ip fp hip hne hfp s hs
+  have hit : intTest cfg neg m e = false := by rw [intTest_iff]; exact hnint
   have hstr : numberToString cfg (.fin neg m e) = .ok s := by
-    simp only [numberToString, hm, if_false, hnint, Bool.false_eq_true, hl, hs]
+    simp only [numberToString, hm, if_false, hit, Bool.false_eq_true, hl, hs]
   -- the output is a numeral without NUL
   have hsg : signOf neg = [] ∨ signOf neg = [cMinus] := by cases neg <;> simp [signOf]
   have hgram : NumberGrammar s := by
@@ -209,5 +198,83 @@ theorem roundtrip_printf (cfg : NumCfg) (keep : Bool) (threshold : Nat) (neg : B
   refine ⟨s, hstr, hmatch, ?_, ?_⟩
   · rw [← atofModel_eq_spec s hmatch, hval]; exact hexit
   · intro hpath; exact atof_path_K keep threshold s hnz hmatch hpath
+
+/-- what `atof` reads from the output of `sprintf("%.Nf")`: the rounded scaled integer over `10^N` -/
+theorem atofModel_printfF (N : Nat) (hN : 1 ≤ N) (neg : Bool) (m : Nat) (e : Int) :
+    atofModel (printfF N neg m e) = roundRat neg (scaledQ N m e) (10 ^ N) := by
+  have hN0 : N ≠ 0 := by omega
+  have hT : 0 < 10 ^ N := Nat.pow_pos (by decide)
+  rw [printfF_eq]
+  simp only [hN0, if_false]
+  generalize hQ : scaledQ N m e = Q
+  have hb : (decDigits (Q % 10 ^ N)).length ≤ N := decDigits_length_le _ N hN (Nat.mod_lt _ hT)
+  have hfpd : ∀ c ∈ List.replicate (N - (decDigits (Q % 10 ^ N)).length) c0 ++ decDigits (Q % 10 ^ N), isDigit c = true := by
+    intro c hc
+    rcases List.mem_append.mp hc with h | h
+    · have := List.eq_of_mem_replicate h; subst this; decide
+    · exact decDigits_all _ c h
+  have := atofModel_shape neg (decDigits (Q / 10 ^ N)) _ true (decDigits_all _) (decDigits_ne_nil _) hfpd (by simp)
+  simp only [if_true] at this
+  rw [this]
+  have hlen : (List.replicate (N - (decDigits (Q % 10 ^ N)).length) c0 ++ decDigits (Q % 10 ^ N)).length = N := by
+    simp; omega
+  rw [hlen, natOfDigits_append, hlen, natOfDigits_decDigits, natOfDigits_append,
+    natOfDigits_zeros _ (fun c hc => List.eq_of_mem_replicate hc), natOfDigits_decDigits]
+  congr 1
+  have := Nat.div_add_mod Q (10 ^ N)
+  rw [Nat.zero_mul, Nat.zero_add, Nat.mul_comm]; exact this
+
+/-- the precision loop ends with a buffer that reads back, or with the output of the last format -/
+theorem printLoop_result (B : Nat) (neg : Bool) (m : Nat) (e : Int) :
+    ∀ (ps : List Nat) (buf : List Nat), printLoop B neg m e ps = some buf →
+      (atofModel buf).ieeeEq (.fin neg m e) = true ∨ ∃ p, ps.getLast? = some p ∧ buf = printfF p neg m e := by
+  intro ps
+  induction ps with
+  | nil => intro buf h; simp [printLoop] at h
+  | cons p rest ih =>
+    intro buf h
+    simp only [printLoop] at h
+    split at h
+    · cases h
+    · split at h
+      · rename_i hm; cases h; exact Or.inl hm
+      · cases rest with
+        | nil => simp at h; cases h; exact Or.inr ⟨p, rfl, rfl⟩
+        | cons q r =>
+          simp only at h
+          rcases ih buf h with h1 | ⟨p', hp', hb⟩
+          · exact Or.inl h1
+          · exact Or.inr ⟨p', by simpa using hp', hb⟩
+
+/-- **Assumed lemma about decimal ↔ binary rounding** (Matula 1968; Goldberg 1991, Thm 15): 17 significant
+decimal digits identify a binary64 value.  If `N` is `|x|·10^j` rounded half-even to an integer and `N` has at
+least 17 digits, the double nearest to `N / 10^j` is `x`.  Stated as a proposition, used only as an explicit
+hypothesis (never as an axiom). -/
+def Digits17Suffice : Prop :=
+  ∀ (neg : Bool) (m : Nat) (e : Int) (j : Nat), Canonical m e → m ≠ 0 → 10 ^ 16 ≤ scaledQ j m e →
+    (roundRat neg (scaledQ j m e) (10 ^ j)).ieeeEq (.fin neg m e) = true
+
+/-- under that lemma the text handed to the zero stripping reads back whenever the last precision of the
+table shows at least 17 significant digits of `x` (`|x|·10^P ≥ 10^16`, i.e. `|x| ≳ 1e-19` for P = 35) -/
+theorem readsBack_of_digits17 (H : Digits17Suffice) (cfg : NumCfg) (neg : Bool) (m : Nat) (e : Int)
+    (hc : Canonical m e) (hm : m ≠ 0) (hP : ∀ p ∈ cfg.precisions, 1 ≤ p) (P : Nat)
+    (hlast : cfg.precisions.getLast? = some P) (h17 : 10 ^ 16 ≤ scaledQ P m e)
+    (buf : List Nat) (hfin : finalBuffer cfg neg m e = some buf) :
+    (atofModel buf).ieeeEq (.fin neg m e) = true := by
+  have hPmem : P ∈ cfg.precisions := List.mem_of_getLast? hlast
+  unfold finalBuffer at hfin
+  cases hl : printLoop cfg.buffer neg m e cfg.precisions with
+  | none => rw [hl] at hfin; cases hfin
+  | some b0 =>
+    have hb0 : (atofModel b0).ieeeEq (.fin neg m e) = true := by
+      rcases printLoop_result _ _ _ _ _ _ hl with h | ⟨p, hp, rfl⟩
+      · exact h
+      · rw [hlast] at hp; cases hp
+        rw [atofModel_printfF P (hP P hPmem)]
+        exact H neg m e P hc hm h17
+    rw [hl] at hfin
+    simp only [hb0, Bool.not_true, Bool.and_false, Bool.false_eq_true, if_false] at hfin
+    cases hfin; exact hb0
+
 
 end XalanModel.C18
